@@ -4,7 +4,10 @@ from ..check import Slice, Query
 from ..summary import Item, items, is_ok, modules, bv
 
 ID = 'C15'
-ENGINE_B = {'template': 't_extern', 'kinds': ['singleton_', 'externval_'], 'max_quick': 12, 'max_thorough': 64}
+# fixed witnesses: addresses at and above 2^32, with zero groups, for the type singleton, the enum singleton and extern values
+ENGINE_B = {'template': 't_extern', 'kinds': ['singleton_', 'externval_'], 'max_quick': 14, 'max_thorough': 64,
+            'fixed': [[8, 1, 0x141234560, 1, 0x7FF612345678, 2, 1, 0x100000000, 3, 1, 1, 0x140001000, 7, 0],
+                      [8, 1, 0xFFFFFFFF, 1, 0x10000, 1, 1, 0x100000010, 0, 1], [8, 1, 0x7FFFFFFFFFFFFFF0, 1, 0x1000000000000, 1, 1, 0xFFFF, 8, 1]]}
 TYPES = {0: ['raw', 'u32'], 1: ['raw', 'u64'], 2: ['const*', ['raw', 'm::T']], 3: ['mut*', ['raw', 'u8']], 5: ['raw', 'bool'],
          7: ['array', ['raw', 'u32'], 4], 8: ['const*', ['raw', 'm::E']]}
 TXT = {0: 'u32', 1: 'u64', 2: '*const T', 3: '*mut u8', 4: 'Nope', 5: 'bool', 6: '*const Nope', 7: '[u32; 4]', 8: '*const E'}
